@@ -81,12 +81,14 @@ QUIRK_SITE = {
     "return-in-buffering-def": "return-in-buffered-def-loses-content",
     "caller-in-def-nested-in-call": "nested-def-in-call-sees-enclosing-caller",
     "decorated-def-in-call": "decorated-def-in-call-not-exported",
+    "nested-call-def-reached-by-outer-callee": "nested-call-def-exported-to-outer-caller",
 }
 QUIRK_STREAM = {
     "call-in-call-expr-args": "oracle.quirk.call_expr_args",
     "return-in-buffering-def": "oracle.quirk.return_in_buffered",
     "caller-in-def-nested-in-call": "oracle.quirk.nested_def_caller",
     "decorated-def-in-call": "oracle.quirk.decorated_call_def",
+    "nested-call-def-reached-by-outer-callee": "oracle.quirk.nested_call_def_export",
 }
 
 
@@ -462,11 +464,12 @@ def oracle_set(ctx, rep, bodies, tag, s_render, s_ident, opts=None, allow=(), ns
 # pipeline and Lean specification all run them; the same trees are the non-vacuity examples of Props/C05.lean)
 FIXED_SETS = [
     # defs of a <%call> below a control line and in a nested <%call>: all of them are written into the outer ccall
+    # (that the OUTER callee could reach d7 as well is F-C05-5's business, oracle.quirk.nested_call_def_export)
     ("call-defs-under-control-line-and-in-nested-call",
      [[["def", 1, [], G.FL(), [["text", "["], ["expr", ["caller", 5, [["lit", "p"]]], []], ["text", "|"],
-                               ["expr", ["caller", 7, []], []], ["text", "|"], ["expr", ["caller", 0, []], []],
-                               ["text", "]"]]],
-       ["def", 2, [], G.FL(), [["text", "("], ["expr", ["caller", 0, []], []], ["text", ")"]]],
+                               ["expr", ["caller", 0, []], []], ["text", "]"]]],
+       ["def", 2, [], G.FL(), [["text", "("], ["expr", ["caller", 7, []], []], ["text", ":"],
+                               ["expr", ["caller", 0, []], []], ["text", ")"]]],
        ["call", ["call", 1, []], [],
         [["if", ["lit", "r"], [["def", 5, [5], G.FL(filters=[2]), [["text", "n"], ["expr", ["var", 5], []]]],
                                ["text", "X"]], []],
@@ -480,7 +483,7 @@ FIXED_SETS = [
        ["block", 11, False, G.FL(filters=[2]), [["text", "x"], ["expr", ["call", 1, [["lit", "q"]]], []]]],
        ["for", 3, [["lit", "7"], ["lit", "8"]],
         [["block", 12, True, G.FL(filters=[2]),
-          [["for", 4, [["lit", "9"], ["var", 3]], [["expr", ["loopindex"], []], ["expr", ["var", 4], []]]]]]]],
+          [["for", 4, [["lit", "9"], ["lit", "p"]], [["expr", ["loopindex"], []], ["expr", ["var", 4], []]]]]]]],
        ["inc", 1],
        ["def", 2, [], G.FL(), [["text", "("], ["block", 13, True, G.FL(filters=[2]), [["expr", ["probe"], []]]],
                                ["text", ")"]]],
@@ -488,6 +491,27 @@ FIXED_SETS = [
       [["text", "I"], ["block", 14, False, G.FL(), [["text", "k"]]],
        ["block", 15, True, G.FL(buffered=True), [["text", "z"]]], ["text", "J"]]]),
 ]
+
+
+# F-C05-5: the defs of a <%call> nested in the content of another <%call> are written into the OUTER ccall too
+# (DefVisitor's default traversal descends into the nested tag): the outer callee reaches them as caller.<name>
+QUIRK_WITNESSES = {
+    "nested-call-def-reached-by-outer-callee": [
+        [[["def", 1, [], G.FL(), [["text", "["], ["expr", ["caller", 7, []], []], ["text", "|"],
+                                  ["expr", ["caller", 0, []], []], ["text", "]"]]],
+          ["def", 2, [], G.FL(), [["text", "("], ["expr", ["caller", 0, []], []], ["text", ")"]]],
+          ["call", ["call", 1, []], [],
+           [["call", ["call", 2, []], [], [["def", 7, [], G.FL(), [["text", "inner"]]], ["text", "x"]]]]]]],
+        [[["def", 1, [1], G.FL(buffered=True), [["expr", ["var", 1], []], ["expr", ["caller", 0, []], []]]],
+          ["def", 2, [], G.FL(), [["text", "<"], ["expr", ["caller", 8, [["lit", "p"]]], [3]], ["text", ">"]]],
+          ["for", 3, [["lit", "7"], ["lit", "8"]],
+           [["call", ["call", 2, []], [],
+             [["text", "o"],
+              ["if", ["var", 3], [["call", ["call", 1, [["var", 3]]], [],
+                                   [["def", 8, [4], G.FL(filters=[1]), [["text", "n"], ["expr", ["var", 4], []]]],
+                                    ["text", "y"]]]], []]]]]]]],
+    ],
+}
 
 
 def main_knobs(ctx):
@@ -571,6 +595,23 @@ def run_oracles(ctx, sets, pending):
                 ctx.branch("quirk-found:" + feature)
         ctx.log("%s: %d sets (%d with the feature), violations so far %d" % (
             stream, nq if ctx.quick else nt, hit, len(ctx.violations)))
+    for feature, witnesses in sorted(QUIRK_WITNESSES.items()):
+        stream = QUIRK_STREAM[feature]
+        ctx.stream(stream, "oracle")
+        hit = 0
+        before0 = len(ctx.violations)
+        for bodies in witnesses:
+            bodies = copy.deepcopy(bodies)
+            if CG.features(bodies).get(feature):
+                hit += 1
+                ctx.branch("quirk-present:" + feature)
+            before = len(ctx.violations)
+            oracle_set(ctx, rep, bodies, n, stream, stream, allow=(feature,), nstyles=2)
+            n += 1
+            if len(ctx.violations) > before:
+                ctx.branch("quirk-found:" + feature)
+        ctx.log("%s: %d fixed witnesses (%d with the feature), violations %d" % (
+            stream, len(witnesses), hit, len(ctx.violations) - before0))
     # rich signatures
     from harness import c05_rich
     c05_rich.run(ctx)
